@@ -63,14 +63,14 @@ def part(chk, tier, label, n_quick=500, n_thorough=8000, seed=11):
             d2[0]['cs'][-1].append({'k': 'custom', 'name': common.cps('--al')})
             selmod.SPELL = random.Random(rng.getrandbits(32))
             try:
-                cm = {':--al': selmod.selector_list(d1), ':--Be\\74 a': selmod.selector_list(d2)}
+                cm = {':--al': selmod.selector_list(d1), ':--Ze\\74 a': selmod.selector_list(d2)}
             finally:
                 selmod.SPELL = None
             for cx in ast:
                 if rng.random() < 0.7:
-                    cx['cs'][rng.randrange(len(cx['cs']))].append({'k': 'custom', 'name': common.cps(rng.choice(['--al', '--beta', '--AL', '--BETA']))})
+                    cx['cs'][rng.randrange(len(cx['cs']))].append({'k': 'custom', 'name': common.cps(rng.choice(['--al', '--zeta', '--AL', '--ZETA']))})
             if not any(sm['k'] == 'custom' for cx in ast for comp in cx['cs'] for sm in comp):
-                ast[0]['cs'][-1].append({'k': 'custom', 'name': common.cps('--beta')})
+                ast[0]['cs'][-1].append({'k': 'custom', 'name': common.cps('--zeta')})
         selmod.SPELL = None
         canon = selmod.selector_list(ast)
         selmod.SPELL = random.Random(rng.getrandbits(32))
